@@ -151,6 +151,10 @@ func main() {
 		lk := readLock(*lock)
 		skipObl = func(name string) bool { return lk[lockKey(*tags, name)] == "u" }
 	}
+	if *updateLock && *lock != "" && os.Getenv("ARKVC_FULL_RETRY") == "" {
+		lk := readLock(*lock)
+		shortObl = func(name string) bool { return lk[lockKey(*tags, name)] == "u" }
+	}
 	leanRace = tmo < 30000
 	verdicts := discharge(results, *workers, tmo, seed, *keep)
 	skipObl = nil
